@@ -56,6 +56,8 @@ def _gen_semseg_members(rng, T):
                 break
     for _ in range(n):
         name = rng.choice(SEMSEG_MEMBER_RECIPES + ["semseg_random_crop", "semseg_random_horizontal_flip", "semseg_random_resize"])
+        if name == "semseg_random_resize" and cur["h"] is not None and (min(cur["h"], cur["w"]) < 4 or max(cur["h"], cur["w"]) > 4 * min(cur["h"], cur["w"])):
+            continue     # degenerate geometry (a 1 x 39 strip is resized to height 0): subject of C14, not of the streams
         o = H.RECIPES[name].sample(rng, cur)
         if o is None:
             continue
